@@ -943,6 +943,7 @@ class DirectorHandler:
                 vol_paths=vol_paths,
                 ran_concurrently=self.scheduler.ran_concurrently,
             )
+            amended_hashes = self.workflow.get_file_hashes(inp_paths)
         # The step is still running and may write the new outputs as soon as this call returns,
         # so their directories are created here rather than when the step was dispatched.
         self.workflow.create_dirs(Path(path).parent for path in chain(out_paths, vol_paths))
@@ -954,6 +955,14 @@ class DirectorHandler:
                     file = self.workflow.find(File, path)
                     if file.get_state() not in (FileState.CONFIRMED, FileState.BUILT):
                         unavailable.add(path)
+                amended_hashes.update(self.workflow.get_file_hashes(checked_paths))
+        # An amended input must stay what it is now for the rest of the run,
+        # just like the inputs that were known when the command started.
+        run = self.executor.running.get(job_i)
+        if run is not None:
+            for path, file_hash in amended_hashes.items():
+                if not file_hash.is_unknown:
+                    run.inp_hashes_at_start.setdefault(path, file_hash)
         carry_on = len(unavailable) == 0 and len(unfresh) == 0
         if not carry_on:
             self.executor.defer(job_i, unavailable=unavailable, unfresh=unfresh)
